@@ -7,7 +7,7 @@ CONSTANTS
   MaxDev = 1
   Enumerate = TRUE
   Cmul = 64
-  Cadd = 67108864
+  Cadd = 16777216
   BoundedDecode = TRUE
   ExportOn = TRUE
 INIT Init
